@@ -41,14 +41,14 @@ def classify(case, obs, asis):
         e = obs["exc"]
         for a in asis:
             if a["err"] and a["fired"] and exc_matches(e, a["err"]):
-                return "known", a["fired"][-1], "%s at %s" % (e["type"], e["site"])
+                return "known", u.attribute(a["fired"], a["err"]), "%s at %s" % (e["type"], e["site"])
         return "violation", None, "the code raised %s (%s) at %s in stage %s: %s" % (e["type"], e["site"], e["site"], e["stage"], e["msg"][:200])
     why = u.diff_mol(exp_base, obs["base"], what="after MapToMolecule") or u.diff_mol(exp, obs["final"], what="final molecule")
     if why is None:
         return "ok", None, ""
-    for a in asis:
+    for a in sorted(asis, key=lambda a: len(a["fired"])):
         if not a["err"] and a["fired"] and u.diff_mol(a["got"], obs["final"], what="") is None:
-            return "known", a["fired"][0], why
+            return "known", u.attribute(a["fired"]), why
     return "violation", None, why
 
 
@@ -58,14 +58,14 @@ def classify_itp(case, g, asis):
         e = g["exc"]
         for a in asis:
             if a["err"] and a["fired"] and exc_matches(e, a["err"]):
-                return "known", a["fired"][-1], "gen_params: %s at %s" % (e["type"], e["site"])
+                return "known", u.attribute(a["fired"], a["err"]), "gen_params: %s at %s" % (e["type"], e["site"])
         return "violation", None, "gen_params raised %s at %s: %s" % (e["type"], e["site"], e["msg"][:200])
     d = u.diff_mol(case["exp"], g["final"], with_ver=False, gattr=False, what="written .itp", itp=True)
     if d is None:
         return "ok", None, ""
-    for a in asis:
+    for a in sorted(asis, key=lambda a: len(a["fired"])):
         if not a["err"] and a["fired"] and u.diff_mol(a["got"], g["final"], with_ver=False, gattr=False, what="", itp=True) is None:
-            return "known", a["fired"][-1], d
+            return "known", u.attribute(a["fired"]), d
     return "violation", None, d
 
 
@@ -211,7 +211,7 @@ def run(tier):
 def replay(path):
     doc = json.loads(open(path).read())
     case = doc["case"]
-    ck = c.Check(PROP, "quick")
+    ck = None      # a stored case is re-executed without touching the evidence of the last run
     if case["kind"] == "S->I replay":
         wd = c.workdir(PROP, "replay_one")
         paths = u.render_ff(case["ff"], case["fmt"], wd, tag="f")
